@@ -42,6 +42,12 @@ func init() {
 			cut, _ = strconv.Atoi(entry[i+1:])
 			entry = entry[:i]
 		}
+		// H d k<k> / F d k<k>: as k<k>, but the last chunk arrives TOGETHER with io.EOF (an HTTP body, a TLS record
+		// followed by close_notify, iotest.DataErrReader): legal for an io.Reader, and the reply must not differ
+		finKind := "E"
+		if strings.HasSuffix(entry, "d") {
+			finKind, entry = "Ed", entry[:len(entry)-1]
+		}
 		plainSrc := func(p []byte) io.Reader {
 			if cut >= 0 {
 				rd, _ := mkReader(append([]byte(nil), p[:cut]...), 0, "F")
@@ -50,7 +56,7 @@ func init() {
 			if chunk == 0 {
 				return bytes.NewReader(p)
 			}
-			rd, _ := mkReader(append([]byte(nil), p...), chunk, "E")
+			rd, _ := mkReader(append([]byte(nil), p...), chunk, finKind)
 			return rd
 		}
 		switch entry {
@@ -201,6 +207,8 @@ func genC08(tier string, r *rng) {
 					}
 					run(fmt.Sprintf("ctl Hk%d %d %d %s %s %d", k, st, op, hx(p), keys[(n+k)%2], n+op+k))
 					run(fmt.Sprintf("ctl Fk%d %d %d %s %s %d", k, st, op, hx(p), keys[(n+k)%2], n+op+k))
+					run(fmt.Sprintf("ctl Hdk%d %d %d %s %s %d", k, st, op, hx(p), keys[(n+k)%2], n+op+k))
+					run(fmt.Sprintf("ctl Fdk%d %d %d %s %s %d", k, st, op, hx(p), keys[(n+k)%2], n+op+k))
 				}
 			}
 		}
